@@ -9,9 +9,10 @@ import props.C06 as C06
 RULE = ('grammar scripts x {strip_whitespace, use_space_around_operators, reindent with every sub-option combination (thorough) / sampled (quick)}; the stated normal form is checked on the output text and by re-lexing; '
         'the first two outputs are formatted again (fixed point); sweeps: every clause keyword (every JOIN spelling) x 14 contexts where a query can stand x reindent option sets, '
         'every operator spelling x 24 syntactic positions, every run of up to 3 comparison / 2 other operator characters x 3 contexts, whitespace runs of every kind (ASCII and Unicode) between every pair of item kinds (comments included) x bracket contexts; '
+        'DOMAIN(liftok): on a sample of the reindent cases the Lean predicate liftOK (model tree before ReindentFilter) decides whether a clause keyword inside a line is a violation or KF-C10-8; '
         'non-trivial = distinct (script, option set)')
 ASSUMPTIONS = ['re-lexing by the real lexer decides what is a comment/literal/operator in the output']
-PARTIAL = ['tree-level normal forms, the spaces fixed point, the IdentifierList fixed point criterion (KF-C10-3 = its counterexample) and the reindent clause for every list _process_default handles (clause keyword directly preceded by the nl() token, hypothesis noBreakBefore) are theorems; the lift of the reindent clause through _process_identifierlist/_case/_parenthesis and through the serializer regex, and the text-level reading of the normal forms, are oracle-checked; known findings KF-C10-2..4']
+PARTIAL = ['tree-level normal forms, the spaces fixed point, the IdentifierList fixed point criterion (KF-C10-3 = its counterexample) are theorems; the reindent clause is a theorem for the WHOLE output tree of ReindentFilter.process (reindent_clause_whole_tree: every selected split keyword at every nesting level, and the WHERE of every Where group, directly follows an nl() token; lifted through _process_where/_parenthesis/_function/_identifierlist/_case and the recursion) under the decidable side conditions liftOK (evaluated by the driver, DOMAIN(liftok); clause (3) = known finding KF-C10-8); what remains oracle-checked: the weak form with a comment line in front of a keyword (theorem per list only: rSplitKwds_lineBreak), the serializer regex, and the text-level reading of the normal forms; known findings KF-C10-2..8']
 CLAUSE_KW = {'FROM', 'WHERE', 'GROUP BY', 'ORDER BY', 'HAVING', 'LIMIT', 'UNION', 'UNION ALL', 'EXCEPT', 'SET', 'AND', 'OR'}
 
 
@@ -81,6 +82,21 @@ def check_spaces(ctx, text):
         ctx.fail('use_space_around_operators is not a fixed point', text, observed=out2[:300], required=out[:300], options=repr(opts))
 
 
+def lean_lift(ctx, text, opts):
+    """the Lean side conditions of the whole-tree reindent theorem (`reindent_clause_whole_tree`), evaluated by the driver on the model's trees
+    of this format() run: one word `l:b:i` per statement — l = `liftOK` of the tree ReindentFilter receives, b = `brkOK` of the tree it returns,
+    i = clause (3) fails (`idListSplit`: a split keyword is a direct item of a processed IdentifierList); None when the driver cannot say"""
+    try:
+        if not ctx.model.available:
+            return None
+        mo = ctx.model.ask(['liftok %s %d %s' % (streams.enc_dict(opts) or '-', 20000, hexs(text))])[0]
+        if not mo.startswith('ok'):
+            return None
+        return mo.split()[1:]
+    except Exception:
+        return None
+
+
 def check_reindent(ctx, text, opts):
     out = sqlparse.format(text, **opts)
     ctx.evaluations += 1
@@ -117,7 +133,8 @@ def check_reindent(ctx, text, opts):
             pending.pop()
             is_clause = False
         if is_clause and sig_before:
-            ctx.fail('reindent: clause keyword does not start its own line', text, observed=out[:400], required='%s at line start' % name, options=repr(opts))
+            ctx.fail('reindent: clause keyword does not start its own line', text, observed=out[:400], required='%s at line start' % name, options=repr(opts),
+                     lean_lift=lean_lift(ctx, text, opts))
             return
         sig_before = True
 
@@ -262,6 +279,33 @@ def whitespace_cases(ctx):
     ctx.count('sweep.whitespace')
 
 
+# deterministic witnesses of KF-C10-8 (an IdentifierList that starts the statement and has a split keyword as an item)
+KF8_WITNESSES = ['a, from t', 'x, set y = 1', 'case when a then b else c end, from']
+
+
+def domain_liftok(ctx, cases):
+    """DOMAIN(liftok): `liftOK` (Lean, on the model's tree) is the authority for the reindent clause.  cases: (text, options, did the text-level oracle
+    `check_reindent` find a clause keyword inside a line).  liftOK on every statement and the oracle fails = a violation (the failure is already
+    recorded and is never classified); liftOK and not brkOK on the model's own trees contradicts the theorem (a broken tie);
+    not liftOK although the oracle passes is only counted (tightness: mostly comment lines in front of a keyword)"""
+    if not ctx.model.available:
+        ctx.notes.append('model driver unavailable: DOMAIN(liftok) skipped')
+        return
+    outs = ctx.model.ask(['liftok %s %d %s' % (streams.enc_dict(o) or '-', 20000, hexs(t)) for t, o, _ in cases])
+    for (t, o, failed), mo in zip(cases, outs):
+        words = mo.split()[1:] if mo.startswith('ok') else None
+        if not words or any(w.startswith('err') for w in words):
+            ctx.count('liftok:no-verdict')
+            continue
+        ws = [w.split(':') for w in words if w != '-']
+        ctx.stream('DOMAIN(liftok)', inputs=len(ws), lines=1)
+        lift = all(w[0] == '1' for w in ws)
+        brk = all(w[1] == '1' for w in ws)
+        if lift and not brk:
+            ctx.mismatch('DOMAIN(liftok)', (t, o), mo[:200], 'theorem: liftOK => brkOK')
+        ctx.count('liftok:lift=%d,oracle=%s' % (lift, 'fail' if failed else 'ok'))
+
+
 def run(ctx):
     rng = ctx.rng
     g = grammar.Gen(rng, feat={'setops': True})
@@ -274,6 +318,7 @@ def run(ctx):
         # strip_whitespace keeps such inner runs (known finding KF-C10-2)
         respelled[len(texts) - 1] = grammar.render_script(stmts, grammar.Layout(rng, comments=0, tight=0, inner_ws=[' ', '  ', '\t', '\n', ' \n ', '   ']), final_semi=False)
     subs = ['indent_tabs', 'indent_after_first', 'indent_columns', 'comma_first', 'compact']
+    lift_cases = []
     for i, t in enumerate(texts):
         try:
             check_stripws(ctx, t)
@@ -286,7 +331,10 @@ def run(ctx):
                 o['indent_width'] = rng.choice([1, 3, 4, 8])
             if rng.random() < 0.3:
                 o['wrap_after'] = rng.choice([1, 20, 60])
+            n0 = len(ctx.failures)
             check_reindent(ctx, t, o)
+            if len(lift_cases) < ctx.n(600, 6000):
+                lift_cases.append((t, o, any('clause keyword' in f['what'] for f in ctx.failures[n0:])))
             check_reindent(ctx, respelled[i], o)
         except Exception as e:
             ctx.fail('format raised ' + type(e).__name__, t, observed=repr(e)[:200], required='formatted text')
@@ -306,6 +354,11 @@ def run(ctx):
     clause_cases(ctx)
     operator_cases(ctx)
     whitespace_cases(ctx)
+    for w in KF8_WITNESSES:
+        n0 = len(ctx.failures)
+        check_reindent(ctx, w, {'reindent': True})
+        lift_cases.append((w, {'reindent': True}, len(ctx.failures) > n0))
+    domain_liftok(ctx, lift_cases)
     ctx.samples += [short(t, 80) for t in texts[:3]]
     if ctx.model.available and hasattr(streams, 's_fmt'):
         cs = [(t, rng.choice([{'strip_whitespace': True}, {'use_space_around_operators': True}, {'reindent': True}, {'reindent': True, 'comma_first': True}])) for t in texts[: ctx.n(400, 5000)]]
@@ -384,6 +437,12 @@ def parenthesis_not_closed_by_last_child(text):
 
 def classify(f, kf):
     for k in kf:
+        if k['id'] == 'KF-C10-8' and 'clause keyword does not start its own line' in f['what'] and f.get('lean_lift'):
+            # the Lean predicate decides: some statement is outside `liftOK` BY CLAUSE (3) (a split keyword is a direct item of an IdentifierList);
+            # a failure on a text whose statements all satisfy liftOK is never a known finding
+            ws = [w.split(':') for w in f['lean_lift'] if w != '-' and not w.startswith('err')]
+            if any(len(w) == 3 and w[0] == '0' and w[2] == '1' for w in ws):
+                return k['id']
         if k['id'] == 'KF-C10-5' and 'strip_whitespace is not a fixed point' in f['what'] and isinstance(f['input'], str) \
                 and only_blanks_after_comment_lines_removed(f['input'], {'strip_whitespace': True}):
             return k['id']
